@@ -110,6 +110,7 @@ type Frame struct {
 	parent *Frame
 	named  map[string]*Cell // source name -> most recent cell
 	resultAllocs map[*ssa.Alloc][]string
+	resultNames  map[string]bool // synthetic names (err, result, resultK) bound to anonymous results
 	depth  int
 }
 
@@ -117,7 +118,7 @@ func (f *Frame) clone() *Frame {
 	if f == nil {
 		return nil
 	}
-	n := &Frame{fn: f.fn, regs: make(map[ssa.Value]Value, len(f.regs)+8), parent: f.parent.clone(), depth: f.depth, resultAllocs: f.resultAllocs}
+	n := &Frame{fn: f.fn, regs: make(map[ssa.Value]Value, len(f.regs)+8), parent: f.parent.clone(), depth: f.depth, resultAllocs: f.resultAllocs, resultNames: f.resultNames}
 	for k, v := range f.regs {
 		n.regs[k] = v
 	}
@@ -325,7 +326,13 @@ func (u *Unit) heapGet(v heapView, name string, sort Sort) T {
 	if t, ok := v.heaps[name]; ok {
 		return t
 	}
-	c := fmt.Sprintf("%s@e%d", name, v.epoch)
+	ep := v.epoch
+	if u.entryEpoch > 0 && u.immutableHeap(name) {
+		// a heap that re-entrant code cannot change and that this path has not touched yet
+		// still has its value from the function's entry, whatever was havocked in between
+		ep = u.entryEpoch
+	}
+	c := fmt.Sprintf("%s@e%d", name, ep)
 	u.decls.Add(c, fmt.Sprintf("(declare-const %s %s)", c, sort))
 	return T{c, sort}
 }
